@@ -511,7 +511,7 @@ def comprehensions_as_recorded_loops(fn, contract_name):
 
 def inline_explaining_temporaries(fn):
     """`t = <pure expression>` directly followed by the only use of t, with nothing but names/constants evaluated before that use in the following statement (or in the
-    test of the following if/while), is the same as writing the expression in place. Returns (function copy with such temporaries inlined, [names]) — applied repeatedly."""
+    test of the following if / the iterable of the following for), is the same as writing the expression in place. Returns (function copy with such temporaries inlined, [names]) — applied repeatedly."""
     import copy
     t = copy.deepcopy(fn)
     done = []
@@ -527,7 +527,7 @@ def inline_explaining_temporaries(fn):
 
     def head_expr(s):
         """the expressions of statement s that are evaluated first (before any nested block)"""
-        if isinstance(s, (ast.If, ast.While)):
+        if isinstance(s, ast.If):            # not While: its test is evaluated again on every iteration
             return [s.test]
         if isinstance(s, ast.For):
             return [s.iter]
